@@ -338,15 +338,22 @@ class Expand(MaskMixin, DisjointUnionStrategy):
 
 
 class RemoveFront(MaskMixin, CartesianProductStrategy):
-    """W(p) = {p[:s]} x W(p[s:]) for the largest safe s >= 1 (README rule)."""
+    """W(p) = {p[:s]} x W(p[s:]) for the largest safe s >= 1 (README rule).
 
-    def __init__(self, mask=None, lazy=False):
+    split: when the removed front is a square u u, it is split into two equal atoms:
+           {u} x {u} x W(p[s:])  (a rule with a repeated child).
+    merge: when the class tracks the same letter twice, the children track it once
+           (two parent statistics mapped onto one child statistic, in a product)."""
+
+    def __init__(self, mask=None, lazy=False, split=False, merge=False):
         super().__init__(ignore_parent=True, inferrable=False, possibly_empty=False, workable=True)
         self.mask = mask
         self.lazy = lazy
+        self.split = split
+        self.merge = merge
 
     def _args_repr(self):
-        return ""
+        return ",".join(x for x, on in (("split", self.split), ("merge", self.merge)) if on)
 
     @staticmethod
     def safe_index(c):
@@ -360,39 +367,55 @@ class RemoveFront(MaskMixin, CartesianProductStrategy):
             safe = i + 1
         return safe
 
+    def _merging(self, c):
+        return self.merge and len(c.tracked) == 2 and c.tracked[0] == c.tracked[1]
+
     def decomposition_function(self, c):
         if c.just_prefix or c.is_empty() or self.masked(c):
             return None
         s = self.safe_index(c)
         if s <= 0:
             return None
-        return (
-            c.replace(prefix=c.prefix[:s], just_prefix=True),
-            c.replace(prefix=c.prefix[s:]),
-        )
+        tracked = c.tracked[:1] if self._merging(c) else c.tracked
+        front = tuple(c.prefix[:s])
+        rest = c.replace(prefix=c.prefix[s:], tracked=tracked)
+        if self.split and s % 2 == 0 and front[: s // 2] == front[s // 2 :]:
+            half = c.replace(prefix=front[: s // 2], just_prefix=True, tracked=tracked)
+            return (half, half, rest)
+        return (c.replace(prefix=front, just_prefix=True, tracked=tracked), rest)
 
     def extra_parameters(self, comb_class, children=None):
         if children is None:
             children = self.decomposition_function(comb_class)
             if children is None:
                 raise StrategyDoesNotApply("Strategy does not apply")
+        if self._merging(comb_class):
+            return tuple({"k0": "k0", "k1": "k0"} for _ in children)
         return _ident(comb_class, children)
 
     def backward_map(self, comb_class, objs, children=None):
-        yield Wd(tuple(objs[0]) + tuple(objs[1]))
+        yield Wd(sum((tuple(o) for o in objs), ()))
 
     def forward_map(self, comb_class, obj, children=None):
         if children is None:
             children = self.decomposition_function(comb_class)
-        s = len(children[0].prefix)
-        return (Wd(obj[:s]), Wd(obj[s:]))
+        res = []
+        pos = 0
+        for ch in children[:-1]:
+            res.append(Wd(obj[pos : pos + len(ch.prefix)]))
+            pos += len(ch.prefix)
+        res.append(Wd(obj[pos:]))
+        return tuple(res)
 
     def to_jsonable(self):
-        return self._base_json()
+        d = self._base_json()
+        d["split"] = self.split
+        d["merge"] = self.merge
+        return d
 
     @classmethod
     def from_dict(cls, d):
-        return cls(d.get("mask"), d.get("lazy", False))
+        return cls(d.get("mask"), d.get("lazy", False), d.get("split", False), d.get("merge", False))
 
 
 class SplitZeros(MaskMixin, CartesianProductStrategy):
@@ -409,12 +432,15 @@ class SplitZeros(MaskMixin, CartesianProductStrategy):
         return ""
 
     def decomposition_function(self, c):
-        if c.just_prefix or c.prefix or c.patterns or c.start_set is not None or self.masked(c):
+        if c.just_prefix or c.patterns or c.start_set is not None or self.masked(c):
+            return None
+        if any(l != 0 for l in c.prefix):
             return None
         if 0 not in c.alphabet or len(c.alphabet) < 2:
             return None
+        # 0^k (all words) = (0^k followed by zeros) x (empty, or starting with another letter)
         zeros = c.replace(alphabet=(0,))
-        rest = c.replace(start_set=tuple(l for l in c.alphabet if l != 0))
+        rest = c.replace(prefix=(), start_set=tuple(l for l in c.alphabet if l != 0))
         return (zeros, rest)
 
     def extra_parameters(self, comb_class, children=None):
@@ -432,6 +458,9 @@ class SplitZeros(MaskMixin, CartesianProductStrategy):
         while k < len(obj) and obj[k] == 0:
             k += 1
         return (Wd(obj[:k]), Wd(obj[k:]))
+
+    def shifts(self, comb_class, children=None):
+        return super().shifts(comb_class, children)
 
     def to_jsonable(self):
         return self._base_json()
@@ -732,18 +761,21 @@ class ExpandFactory(StrategyFactory):
     """Yields a mix of strategies and ready-made rules; optionally the expansion
     rule of another class (foreign parent) and duplicate emissions."""
 
-    def __init__(self, ds=(1,), as_rules=False, foreign=None, dup=False, mask=None):
+    def __init__(self, ds=(1,), as_rules=False, foreign=None, dup=False, mask=None, foreign_first=False):
         self.ds = tuple(ds)
         self.as_rules = as_rules
         self.foreign = foreign  # None | 'parent' | 'reduced'
         self.dup = dup
         self.mask = mask
+        self.foreign_first = foreign_first
 
     def strategies(self):
         return [Expand(d, mask=self.mask) for d in self.ds]
 
     def __call__(self, comb_class):
         CALL_LOG.append((repr(self), comb_class.key()))
+        if self.foreign_first:
+            yield from self._foreign(comb_class)
         for st in self.strategies():
             if self.as_rules:
                 if st.applies(comb_class):
@@ -754,6 +786,10 @@ class ExpandFactory(StrategyFactory):
                 yield st
                 if self.dup:
                     yield st
+        if not self.foreign_first:
+            yield from self._foreign(comb_class)
+
+    def _foreign(self, comb_class):
         if self.foreign and not comb_class.just_prefix:
             other = None
             if self.foreign == "parent" and len(comb_class.prefix) > 0:
@@ -768,19 +804,19 @@ class ExpandFactory(StrategyFactory):
                     yield st(other)
 
     def __repr__(self):
-        return f"ExpandFactory(ds={self.ds},as_rules={self.as_rules},foreign={self.foreign},dup={self.dup},mask={self.mask})"
+        return f"ExpandFactory(ds={self.ds},as_rules={self.as_rules},foreign={self.foreign},dup={self.dup},mask={self.mask},ff={self.foreign_first})"
 
     def __str__(self):
         return repr(self)
 
     def to_jsonable(self):
         d = super().to_jsonable()
-        d.update(ds=list(self.ds), as_rules=self.as_rules, foreign=self.foreign, dup=self.dup, mask=self.mask)
+        d.update(ds=list(self.ds), as_rules=self.as_rules, foreign=self.foreign, dup=self.dup, mask=self.mask, foreign_first=self.foreign_first)
         return d
 
     @classmethod
     def from_dict(cls, d):
-        return cls(d["ds"], d["as_rules"], d["foreign"], d["dup"], d["mask"])
+        return cls(d["ds"], d["as_rules"], d["foreign"], d["dup"], d["mask"], d.get("foreign_first", False))
 
 
 # ---------------------------------------------------------------------------
@@ -790,7 +826,7 @@ class ExpandFactory(StrategyFactory):
 _STRATS = {
     "Expand": lambda s: Expand(s.get("d", 1), _mask(s), s.get("lazy", False), s.get("drop", False)),
     "SplitZeros": lambda s: SplitZeros(_mask(s), s.get("lazy", False)),
-    "RemoveFront": lambda s: RemoveFront(_mask(s), s.get("lazy", False)),
+    "RemoveFront": lambda s: RemoveFront(_mask(s), s.get("lazy", False), s.get("split", False), s.get("merge", False)),
     "ReducePatterns": lambda s: ReducePatterns(_mask(s), s.get("lazy", False), two_way=s.get("two_way", True), ignore_parent=s.get("ignore_parent", True)),
     "DropDeadStatistic": lambda s: DropDeadStatistic(_mask(s), s.get("lazy", False), two_way=s.get("two_way", True), ignore_parent=s.get("ignore_parent", True)),
     "MergeDuplicateStatistics": lambda s: MergeDuplicateStatistics(_mask(s), s.get("lazy", False), two_way=s.get("two_way", True), ignore_parent=s.get("ignore_parent", True)),
@@ -801,7 +837,7 @@ _STRATS = {
     "FiatVerified": lambda s: FiatVerified(
         [_tup(k) for k in s.get("keys", [])], s.get("salt", 0), s.get("pct", 0), s.get("pack_spec"), s.get("ignore_parent", False)
     ),
-    "ExpandFactory": lambda s: ExpandFactory(tuple(s.get("ds", (1,))), s.get("as_rules", False), s.get("foreign"), s.get("dup", False), _mask(s)),
+    "ExpandFactory": lambda s: ExpandFactory(tuple(s.get("ds", (1,))), s.get("as_rules", False), s.get("foreign"), s.get("dup", False), _mask(s), s.get("foreign_first", False)),
 }
 
 
@@ -899,21 +935,27 @@ def selfcheck_rule(strategy, c, nmax=5):
             parent[(tuple(w), c.get_parameters(w))] += 1
         built = Counter()
         if isinstance(strategy, CartesianProductStrategy):
-            assert len(children) == 2
-            a, b = children
-            for i in range(n + 1):
-                for x in truth_objects(a, i):
-                    for y in truth_objects(b, n - i):
-                        w = tuple(x) + tuple(y)
-                        # parent statistic = sum over children that map it
-                        vals = []
-                        for j, _name in enumerate(c.extra_parameters):
-                            v = 0
-                            for ch, obj, pm in ((a, x, params[0]), (b, y, params[1])):
-                                if f"k{j}" in pm:
-                                    v += ch.get_parameters(obj)[int(pm[f"k{j}"][1:])]
-                            vals.append(v)
-                        built[(w, tuple(vals))] += 1
+            def combos(i, left):
+                if i == len(children) - 1:
+                    for x in truth_objects(children[i], left):
+                        yield (x,)
+                    return
+                for sz in range(left + 1):
+                    for x in truth_objects(children[i], sz):
+                        for tail in combos(i + 1, left - sz):
+                            yield (x,) + tail
+
+            for parts in combos(0, n):
+                w = sum((tuple(x) for x in parts), ())
+                # parent statistic = sum over children that map it
+                vals = []
+                for j, _name in enumerate(c.extra_parameters):
+                    v = 0
+                    for ch, obj, pm in zip(children, parts, params):
+                        if f"k{j}" in pm:
+                            v += ch.get_parameters(obj)[int(pm[f"k{j}"][1:])]
+                    vals.append(v)
+                built[(w, tuple(vals))] += 1
         else:
             for ch, pm in zip(children, params):
                 for x in truth_objects(ch, n):
